@@ -279,6 +279,7 @@ pub fn main(args: &[String]) -> i32 {
     use midnight_circuits::CircuitField;
     let mut out = util::create(&args[0]);
     let which = args.get(1).map(|s| s.as_str()).unwrap_or("all").to_string();
+    let deep = args.get(2).map(|s| s == "deep").unwrap_or(false);
     writeln!(out, "{}", json!({"ev":"header","prop":"C10"})).unwrap();
     let all = which == "all";
     macro_rules! cf {
@@ -329,6 +330,22 @@ pub fn main(args: &[String]) -> i32 {
             let c1: Option<bn256::Fq> = bn256::Fq::from_bytes(b[32..64].try_into().unwrap()).into();
             (c0.unwrap(), c1.unwrap())
         });
+        crate::c10t::bn_extras(&mut out, deep);
+    }
+    if all || which == "bls_fp2" {
+        crate::c10t::bls_extras(&mut out);
+    }
+    if all || which == "bls_fp6" {
+        crate::c10t::sextic::<crate::c10t::BlsTw>(&mut out, deep);
+    }
+    if all || which == "bls_fp12" {
+        crate::c10t::duodecic::<crate::c10t::BlsTw>(&mut out, deep);
+    }
+    if all || which == "bn_fq6" {
+        crate::c10t::sextic::<crate::c10t::BnTw>(&mut out, deep);
+    }
+    if all || which == "bn_fq12" {
+        crate::c10t::duodecic::<crate::c10t::BnTw>(&mut out, deep);
     }
     0
 }
